@@ -38,7 +38,7 @@ func WorkerMain(id string) {
 		fmt.Fprintln(os.Stderr, "unknown check", id)
 		os.Exit(2)
 	}
-	debug.SetMaxStack(64 << 20)
+	debug.SetMaxStack(256 << 20)
 	debug.SetGCPercent(100)
 	go memoryGuard(1 << 30)
 	rc := newRaceCollector()
@@ -107,6 +107,9 @@ func memoryGuard(limit uint64) {
 		runtime.ReadMemStats(&ms)
 		if ms.HeapAlloc > limit {
 			fmt.Fprintf(os.Stderr, "fatal error: out of memory (simulator heap limit %d MiB exceeded, heap=%d MiB)\n", limit>>20, ms.HeapAlloc>>20)
+			buf := make([]byte, 1<<16)
+			n := runtime.Stack(buf, true)
+			os.Stderr.Write(buf[:n])
 			os.Exit(99)
 		}
 	}
@@ -377,11 +380,13 @@ func fatalClass(stderr string, timeout bool) (string, string) {
 	// innermost dicescript frame, if the traceback has one
 	site := ""
 	for _, ln := range strings.Split(stderr, "\n") {
-		if strings.HasPrefix(ln, "github.com/sealdice/dicescript.") {
+		if strings.HasPrefix(ln, "github.com/sealdice/dicescript.") && !strings.Contains(ln, "dicescript.verif") && !strings.Contains(ln, "dicescript.Verif") {
 			site = strings.TrimPrefix(ln, "github.com/sealdice/")
-			if i := strings.IndexByte(site, '('); i > 0 {
+			// drop the argument list: the last '(' that is followed by an address or "..."
+			if i := strings.LastIndex(site, "("); i > 0 {
 				site = site[:i]
 			}
+			site = strings.TrimSuffix(site, ".func1")
 			break
 		}
 	}
